@@ -307,7 +307,7 @@ MANIFEST_TEXT = {
     "C02": {
         "text": "Fault enumeration over the whole malicious hybrid query: the honest run supplies the channel inventory and the reference; the same seed is replayed with one helper (each of the three) rewriting one chunk it sends on a site stratified by protocol step (padding, shuffle, conversion, PRF, reshard, group-by-sum, reveal, aggregation, finalize - MPC and shard traffic). Violation iff both honest helpers complete the query on every shard and their output shares do not determine the reference histogram. Sites are sampled and stratified stage -> gate -> channel: about 120 whole-query sites per quick run (two replays per honest run), thousands in the thorough tier; because a whole-query replay costs seconds, the same sound rule is also applied to the two stages with their own integrity mechanisms (malicious sharded shuffle; MAC-protected multiplication / PRF incl. consistent and lane-cancelling multi-message attacks) in isolation, thousands of sites per quick run.",
         "design_ref": "DESIGN.md section 4, C02",
-        "note": "residual acceptance probabilities: 2^-32 shuffle tags, ~2^-50 DZKP, 2^-252 MAC; single-message rewriting (plus the two-site consistent attack in C04) rather than an adaptive adversary; an honest helper aborting (allocation failure on a forged length) counts as 'no output'",
+        "note": "residual acceptance probabilities: 2^-32 shuffle tags, ~2^-50 DZKP, 2^-252 MAC; message rewriting (single-site; the multi-message, adaptive and rushing attacks of the stage scenarios c04_tamper / c05_tamper), never adversarial code; three known findings reached through the stage scenarios (MAC keys of the shuffle opened too early, twice; MAC check-zero defeated by a late helper), see known_findings.json; an honest helper aborting (allocation failure on a forged length) counts as 'no output'",
         "technique": "deterministic simulation: honest run + same-seed replay with single-site Byzantine rewriting across the whole query, inventory stratified by step",
     },
     "C06": {
@@ -317,7 +317,7 @@ MANIFEST_TEXT = {
         "technique": "deterministic simulation: PRSS set-up over the simulated network + cross-helper/cross-shard equality oracle + global reuse monitor over other scenarios",
     },
     "C04": {
-        "text": "Fault enumeration over the real MAC validator and openings: honest executions over three fields and the real pseudonym function must validate and open exactly x*y / g^(1/(k+x)) on all helpers; then the same seed is replayed with one helper adding an error to one field element (or flipping a bit) of one chunk it sends, at a site drawn from the honest run's inventory stratified over every step of upgrade, multiply, duplicate multiply, propagate-u/w, reveal-r, check-zero and the opening. Violation iff both honest helpers validate and open a value different from the true one (32-bit and 255-bit fields); for the 5-bit field the acceptance rate over the batch must stay below 0.1 plus a 6.5-sigma margin. Sites are sampled.",
+        "text": "Fault enumeration over the real MAC validator and openings: honest executions over three fields and the real pseudonym function must validate and open exactly x*y / g^(1/(k+x)) on all helpers; then the same seed is replayed with one helper adding an error to one field element (or flipping a bit) of one chunk it sends, at a site drawn from the honest run's inventory stratified over every step of upgrade, multiply, duplicate multiply, propagate-u/w, reveal-r, check-zero and the opening. Violation iff both honest helpers validate and open a value different from the true one (32-bit and 255-bit fields); for the 5-bit field the acceptance rate over the batch must stay below 0.1 plus a 6.5-sigma margin. Sites are sampled. Beyond blind rewriting the corrupt helper also mounts multi-message attacks: the same error in a product share and in the copy it opens, a lane-cancelling error on 16-lane shares, and two adaptive ones in which it reacts to what has been opened to it - 'known r' (error e / r*e with an r it has already seen) and 'rush' (it is late in the check-zero step and cancels r*T once its neighbour has opened its shares; this one succeeds on the unchanged tree and is recorded as a known finding). The workloads also run on the multi-threading build.",
         "design_ref": "DESIGN.md section 4, C04",
         "note": "one known finding (a late, rushing helper defeats the check-zero step on the unchanged tree), see known_findings.json; soundness error 1/|F| per check is assumed for the large fields (2^-32, 2^-252); the Fp31 rule has a one-sided false-alarm probability < 1e-9 for any seed",
         "technique": "deterministic simulation: honest run + same-seed replay with single-site additive/bit error, channel inventory stratified by protocol step",
